@@ -546,6 +546,10 @@ def _map(ip, st, t, a, rt):
         return I.NONE
     if k == 'some':
         return I.some(call_fn_value(ip, f, [p], '?'))
+    if k == 'sym' and isinstance(p, I.Sym):
+        payload = opt_payload(o, '?')
+        r = call_fn_value(ip, f, [payload], '?')
+        return I.ite(opt_is_some(o), I.some(r), I.NONE)
     return NotImplemented
 
 
